@@ -4,6 +4,7 @@ C01 — Bus access respects the PROFIBUS idle times (station-level obligations).
 import ProfiVerif.Model.Station
 import ProfiVerif.Lemmas.StationWho
 import ProfiVerif.Lemmas.StationMark
+import ProfiVerif.Lemmas.StationHandshake
 
 namespace PV.C01
 open PV
@@ -124,5 +125,594 @@ def pEx : Params :=
 def sEx : Station :=
   { (Station.new pEx) with online := true, st := .passToken false .first, lastBusActivity := some 0 }
 example : ∃ c', sEx.poll [] 1000 false [] = .ok c' ∧ c'.tx = some [0xDC, 3, 3] := ⟨_, rfl, rfl⟩
+
+/-! ## Two-party handshake timing (token hand-over, request/reply)
+
+Theorems about ONE station model each (parts 1, 2, 4) and pure arithmetic about poll times (part 3).
+The shared bus enters only through named hypotheses on what a station finds in its receive buffer at
+its polls.  Which start states accept a token at all: `ActiveIdle` without pending status request
+(from the registered predecessor, or from the pending stranger on its repeated offer) and
+`CheckTokenPass` before the slot time of the own pass has expired (from the registered predecessor
+only) — `C11.accept_only_from_ps_or_repeat`, `C11.pass_supervision`; a station in `ListenToken` never
+accepts (`C11.listener_never_accepts`). -/
+
+/-- **Part 1a, accepting poll** (`ActiveIdle`, any `new_previous_station`, any collision count, no
+status request pending).  The station is polled at `p1` (PHY idle, later than its stamp) with a buffer
+that decodes to exactly the token addressed to it, from the registered predecessor or from the pending
+stranger; the token-lost time-out has not run out (automatic when the last byte of the token is new at
+this poll).  Then: nothing is transmitted, no application is called, the buffer is consumed, and the
+station is in `UseToken` with `token_time = p1`, bus-activity stamp `p1`, pending count 0. -/
+theorem token_accepted_idle (s : Station) (apps : Apps) (p1 : Int) (rx rx' : Bytes) (np : Option Nat) (coll : Nat)
+    (da sa : UInt8) (ret : Bool) (hon : s.online = true) (hst : s.st = .activeIdle none np coll)
+    (hlate : ∀ l, s.lastBusActivity = some l → l < p1) (hto : 0 < s.p.tokenLostTimeout)
+    (hfresh : s.pendingBytes < rx.length ∨ ∃ l, s.lastBusActivity = some l ∧ p1 < l + (s.p.tokenLostTimeout : Nat))
+    (hrx : receiveAll rx = .done rx' [(.token da sa, true)] ret)
+    (hda : da.toNat = s.p.address) (hsa : sa.toNat ≠ s.p.address) (hsrc : sa.toNat = s.ring.ps ∨ np = some sa.toNat) :
+    ∃ c1, s.poll apps p1 false rx = .ok c1 ∧ c1.tx = none ∧ c1.calls = [] ∧ c1.rx = [] ∧ c1.apps = apps ∧
+      c1.s.st = .useToken ⟨p1, none⟩ false ∧ c1.s.lastBusActivity = some p1 ∧ c1.s.pendingBytes = 0 ∧
+      c1.s.p = s.p ∧ c1.s.online = true := by
+  have hrx' : rx' = [] := receiveAll_true_empty rx rx' _ ret hrx ⟨(.token da sa, true), List.mem_singleton.mpr rfl, rfl⟩
+  subst hrx'
+  exact ⟨_, idle_poll_accepts s apps p1 rx [] np coll da sa ret hon hst hlate hto hfresh hrx hda hsa hsrc,
+    rfl, rfl, rfl, rfl, rfl, rfl, rfl, rfl, hon⟩
+
+/-- **Part 1a', accepting poll from `CheckTokenPass`** (own pass still supervised, slot time not expired
+— automatic when the last byte of the token is new at this poll): only the registered predecessor's
+token is accepted; same result. -/
+theorem token_accepted_check (s : Station) (apps : Apps) (p1 : Int) (rx rx' : Bytes) (att : Attempt)
+    (da sa : UInt8) (ret : Bool) (hon : s.online = true) (hst : s.st = .checkTokenPass att)
+    (hlate : ∀ l, s.lastBusActivity = some l → l < p1)
+    (hfresh : s.pendingBytes < rx.length ∨ ∃ l, s.lastBusActivity = some l ∧ p1 ≤ l + (s.p.slotTime : Nat))
+    (hrx : receiveAll rx = .done rx' [(.token da sa, true)] ret)
+    (hda : da.toNat = s.p.address) (hsa : sa.toNat ≠ s.p.address) (hsrc : sa.toNat = s.ring.ps) :
+    ∃ c1, s.poll apps p1 false rx = .ok c1 ∧ c1.tx = none ∧ c1.calls = [] ∧ c1.rx = [] ∧ c1.apps = apps ∧
+      c1.s.st = .useToken ⟨p1, none⟩ false ∧ c1.s.lastBusActivity = some p1 ∧ c1.s.pendingBytes = 0 ∧
+      c1.s.p = s.p ∧ c1.s.online = true := by
+  have hrx' : rx' = [] := receiveAll_true_empty rx rx' _ ret hrx ⟨(.token da sa, true), List.mem_singleton.mpr rfl, rfl⟩
+  subst hrx'
+  exact ⟨_, check_poll_accepts s apps p1 rx [] att da sa ret hon hst hlate hfresh hrx hda hsa hsrc,
+    rfl, rfl, rfl, rfl, rfl, rfl, rfl, rfl, hon⟩
+
+/-- **Part 1b, `holder_starts_after_pause`.**  A token holder in `UseToken` (any `token_time`, any
+`first_cycle_done`) with bus-activity stamp `l`, under the station invariant, on a silent bus (PHY
+idle, empty receive buffer at every poll): for ANY polls `early` at times `≤ l + 33 bit` (any number,
+any order) followed by ANY poll at a time `t > l + 33 bit`, none of the early polls transmits, calls an
+application or panics, and the poll at `t` — the FIRST poll later than the synchronisation pause —
+transmits: an application telegram, a GAP poll or the token with the own source address, and stamps
+its predicted end (`QuietThenTx`).  No second poll is ever needed (repair of finding K3: `UseToken`
+passes the token in the same poll when the applications decline). -/
+theorem holder_starts_after_pause (s : Station) (apps : Apps) (l : Int) (d : UseData) (fcd : Bool)
+    (hinv : Inv s apps) (hon : s.online = true) (hst : s.st = .useToken d fcd) (hl : s.lastBusActivity = some l)
+    (early : List Int) (t : Int) (hearly : ∀ e ∈ early, e ≤ l + (s.p.bits 33 : Nat)) (ht : l + (s.p.bits 33 : Nat) < t) :
+    QuietThenTx s.p.address s apps early t :=
+  holder_schedule s.p.address s.p l t d fcd ht early s apps hinv hon hst hl rfl rfl hearly
+
+/-- **Part 1, `handover_receiver_starts`** (`ActiveIdle` start).  The accepting poll at `p1` followed by
+any silent-bus schedule: no poll at a time `≤ p1 + 33 bit` transmits, the first poll at a time
+`> p1 + 33 bit` does. -/
+theorem handover_receiver_starts (s : Station) (apps : Apps) (p1 : Int) (rx rx' : Bytes) (np : Option Nat) (coll : Nat)
+    (da sa : UInt8) (ret : Bool) (hinv : Inv s apps) (hon : s.online = true) (hst : s.st = .activeIdle none np coll)
+    (hlate : ∀ l, s.lastBusActivity = some l → l < p1) (hto : 0 < s.p.tokenLostTimeout)
+    (hfresh : s.pendingBytes < rx.length ∨ ∃ l, s.lastBusActivity = some l ∧ p1 < l + (s.p.tokenLostTimeout : Nat))
+    (hrx : receiveAll rx = .done rx' [(.token da sa, true)] ret)
+    (hda : da.toNat = s.p.address) (hsa : sa.toNat ≠ s.p.address) (hsrc : sa.toNat = s.ring.ps ∨ np = some sa.toNat) :
+    ∃ c1, s.poll apps p1 false rx = .ok c1 ∧ c1.tx = none ∧ c1.calls = [] ∧ c1.rx = [] ∧
+      c1.s.st = .useToken ⟨p1, none⟩ false ∧ c1.s.lastBusActivity = some p1 ∧
+      ∀ (early : List Int) (t : Int), (∀ e ∈ early, e ≤ p1 + (s.p.bits 33 : Nat)) → p1 + (s.p.bits 33 : Nat) < t →
+        QuietThenTx s.p.address c1.s c1.apps early t := by
+  obtain ⟨c1, h1, h2, h3, h4, h5, h6, h7, -, h9, h10⟩ :=
+    token_accepted_idle s apps p1 rx rx' np coll da sa ret hon hst hlate hto hfresh hrx hda hsa hsrc
+  obtain ⟨c', hc', hinv', -⟩ := pollInner_good { s := s, apps := apps, rx := rx } p1 false hinv rfl
+  have : c' = c1 := by
+    have h1' : pollInner { s := s, apps := apps, rx := rx } p1 false = .ok c1 := h1
+    rw [hc'] at h1'; cases h1'; rfl
+  subst this
+  refine ⟨c', h1, h2, h3, h4, h6, h7, fun early t he ht => ?_⟩
+  have := holder_starts_after_pause c'.s c'.apps p1 ⟨p1, none⟩ false hinv' h10 h6 h7 early t
+    (by rw [h9]; exact he) (by rw [h9]; exact ht)
+  rw [h9] at this
+  exact this
+
+/-- **Part 1, `CheckTokenPass` start** (the station still supervises its own pass when the token comes
+back, e.g. in a two-station ring). -/
+theorem handover_receiver_starts_check (s : Station) (apps : Apps) (p1 : Int) (rx rx' : Bytes) (att : Attempt)
+    (da sa : UInt8) (ret : Bool) (hinv : Inv s apps) (hon : s.online = true) (hst : s.st = .checkTokenPass att)
+    (hlate : ∀ l, s.lastBusActivity = some l → l < p1)
+    (hfresh : s.pendingBytes < rx.length ∨ ∃ l, s.lastBusActivity = some l ∧ p1 ≤ l + (s.p.slotTime : Nat))
+    (hrx : receiveAll rx = .done rx' [(.token da sa, true)] ret)
+    (hda : da.toNat = s.p.address) (hsa : sa.toNat ≠ s.p.address) (hsrc : sa.toNat = s.ring.ps) :
+    ∃ c1, s.poll apps p1 false rx = .ok c1 ∧ c1.tx = none ∧ c1.calls = [] ∧ c1.rx = [] ∧
+      c1.s.st = .useToken ⟨p1, none⟩ false ∧ c1.s.lastBusActivity = some p1 ∧
+      ∀ (early : List Int) (t : Int), (∀ e ∈ early, e ≤ p1 + (s.p.bits 33 : Nat)) → p1 + (s.p.bits 33 : Nat) < t →
+        QuietThenTx s.p.address c1.s c1.apps early t := by
+  obtain ⟨c1, h1, h2, h3, h4, h5, h6, h7, -, h9, h10⟩ :=
+    token_accepted_check s apps p1 rx rx' att da sa ret hon hst hlate hfresh hrx hda hsa hsrc
+  obtain ⟨c', hc', hinv', -⟩ := pollInner_good { s := s, apps := apps, rx := rx } p1 false hinv rfl
+  have : c' = c1 := by
+    have h1' : pollInner { s := s, apps := apps, rx := rx } p1 false = .ok c1 := h1
+    rw [hc'] at h1'; cases h1'; rfl
+  subst this
+  refine ⟨c', h1, h2, h3, h4, h6, h7, fun early t he ht => ?_⟩
+  have := holder_starts_after_pause c'.s c'.apps p1 ⟨p1, none⟩ false hinv' h10 h6 h7 early t
+    (by rw [h9]; exact he) (by rw [h9]; exact ht)
+  rw [h9] at this
+  exact this
+
+/-- **Part 1, timed form.**  If the token holder (stamp `l`, e.g. `l = p1` after the accepting poll) is
+polled at times `t 0, t 1, …` with `t 0 ≤ l + P`, gaps at most `P`, silent bus, and the schedule goes on
+beyond `l + 33 bit`, then its first transmission starts at a poll time in
+`(l + 33 bit, l + 33 bit + P]`, and no earlier poll transmits. -/
+theorem holder_starts_timed (s : Station) (apps : Apps) (l : Int) (d : UseData) (fcd : Bool)
+    (hinv : Inv s apps) (hon : s.online = true) (hst : s.st = .useToken d fcd) (hl : s.lastBusActivity = some l)
+    (t : Nat → Int) (P : Nat) (h0 : t 0 ≤ l + P) (hgap : ∀ i, t (i + 1) ≤ t i + P)
+    (hgo : ∃ k, l + (s.p.bits 33 : Nat) < t k) :
+    ∃ n, l + (s.p.bits 33 : Nat) < t n ∧ t n ≤ l + (s.p.bits 33 : Nat) + P ∧
+      QuietThenTx s.p.address s apps ((List.range n).map t) (t n) := by
+  obtain ⟨k, hk⟩ := hgo
+  obtain ⟨n, h1, h2, h3⟩ := first_exceed_timed t l (s.p.bits 33) P h0 hgap k hk
+  refine ⟨n, h1, h2, holder_starts_after_pause s apps l d fcd hinv hon hst hl _ _ ?_ h1⟩
+  intro e he
+  simp only [List.mem_map, List.mem_range] at he
+  obtain ⟨i, hi, rfl⟩ := he
+  exact h3 i hi
+
+/-! Non-vacuity of part 1: station 3 (`pEx`), idle, pending stranger 5, stamp 0, polled at 1000 µs with
+the token 5→3.  All hypotheses of `handover_receiver_starts` hold; 33 bit times are 66 µs. -/
+def sB : Station :=
+  { (Station.new pEx) with online := true, st := .activeIdle none (some 5) 0, lastBusActivity := some 0 }
+
+theorem sB_inv : Inv sB [] := by
+  have h := inv_new pEx [] (by decide) (by decide) (by intro s hs; cases hs)
+  exact ⟨h.addr, h.hsa, h.ring, fun ho => by simp [sB] at ho, h.gap, fun a ha => by simp [sB] at ha,
+    fun a ha => by simp [sB] at ha, h.app, fun a d ha => by simp [sB] at ha, h.scripts, by simp [sB]⟩
+
+example : ∃ c1, sB.poll [] 1000 false (sendToken 3 5) = .ok c1 ∧ c1.tx = none ∧ c1.calls = [] ∧ c1.rx = [] ∧
+    c1.s.st = .useToken ⟨1000, none⟩ false ∧ c1.s.lastBusActivity = some 1000 ∧
+    ∀ (early : List Int) (t : Int), (∀ e ∈ early, e ≤ 1066) → 1066 < t → QuietThenTx 3 c1.s c1.apps early t :=
+  handover_receiver_starts sB [] 1000 (sendToken 3 5) [] (some 5) 0 3 5 true sB_inv rfl rfl
+    (by intro l hl; cases hl; decide) (by decide) (.inl (by decide)) (receiveAll_token 3 5) rfl (by decide) (.inr rfl)
+
+/-! ### Part 2 — the sender of the token -/
+
+/-- The stamp after handing a token telegram (3 characters) to the PHY at `now` is its predicted end
+`now + 33 bit` (`tx_marks_busy`). -/
+theorem token_pass_stamp (s : Station) (apps : Apps) (now : Int) (phyTx : Bool) (rx : Bytes) (c' : Ctx) (da sa : UInt8)
+    (h : s.poll apps now phyTx rx = .ok c') (hb : c'.tx = some (sendToken da sa)) :
+    c'.s.lastBusActivity = some (now + (c'.s.p.bits 33 : Nat)) := by
+  have := tx_marks_busy s apps now phyTx rx c' _ h hb
+  rw [this]
+  have h3 : (sendToken da sa).length = 3 := rfl
+  rw [h3]
+
+/-- **Part 2, `handover_sender_waits`.**  Station A supervises its token pass: `CheckTokenPass att`, stamp
+`te` (the predicted end of its token telegram, `token_pass_stamp`).  For ONE poll at ANY time `now`, with
+ANY PHY flag and ANY receive buffer, that returns regularly:
+(a) at `now ≤ te` (own transmission still on the wire) the poll is a complete no-op — nothing is
+    transmitted, nothing consumed, the station is unchanged;
+(b) at `now ≤ te + Tslot` nothing is transmitted (the slot has not expired: no retry);
+(c) at a poll that finds more bytes in the receive buffer than already accounted for
+    (`|rx| > pending_bytes`) nothing is transmitted either — WHATEVER the time — and (PHY idle, `now > te`)
+    the stamp moves to `now`;
+and in cases (b), (c) with the PHY idle and `now > te`: no application is called, and either no complete
+telegram has arrived — then the station is unchanged except for the registered activity
+(`check_for_bus_activity`), in particular it is still in `CheckTokenPass att` with the same ring view —
+or a telegram was heard: supervision ends, the stamp is `now`. -/
+theorem handover_sender_waits (s : Station) (apps : Apps) (now : Int) (phy : Bool) (rx : Bytes) (c' : Ctx)
+    (att : Attempt) (te : Int) (hon : s.online = true) (hst : s.st = .checkTokenPass att)
+    (hl : s.lastBusActivity = some te) (h : s.poll apps now phy rx = .ok c') :
+    (now ≤ te → c' = { s := s, apps := apps, rx := rx }) ∧
+    ((now ≤ te + (s.p.slotTime : Nat) ∨ s.pendingBytes < rx.length) → c'.tx = none) ∧
+    (te < now → phy = false → (now ≤ te + (s.p.slotTime : Nat) ∨ s.pendingBytes < rx.length) →
+      c'.calls = [] ∧ (s.pendingBytes < rx.length → c'.s.lastBusActivity = some now) ∧
+      ((c'.s = checkBusActivity s now rx.length ∧ ∃ rx' ret, receiveAll rx = .done rx' [] ret ∧ c'.rx = rx') ∨
+       (c'.s.lastBusActivity = some now ∧ (∀ a, c'.s.st ≠ .checkTokenPass a) ∧
+          ∃ rx' x rest ret, receiveAll rx = .done rx' (x :: rest) ret))) := by
+  have ha : now ≤ te → c' = { s := s, apps := apps, rx := rx } := by
+    intro hle
+    rw [poll_ongoing s apps now phy rx hon (by rw [hst]; simp) (by rw [hst]; simp) te hl hle] at h
+    cases h; rfl
+  have hc : te < now → phy = false → (now ≤ te + (s.p.slotTime : Nat) ∨ s.pendingBytes < rx.length) →
+      c'.tx = none ∧ c'.calls = [] ∧ (s.pendingBytes < rx.length → c'.s.lastBusActivity = some now) ∧
+      ((c'.s = checkBusActivity s now rx.length ∧ ∃ rx' ret, receiveAll rx = .done rx' [] ret ∧ c'.rx = rx') ∨
+       (c'.s.lastBusActivity = some now ∧ (∀ a, c'.s.st ≠ .checkTokenPass a) ∧
+          ∃ rx' x rest ret, receiveAll rx = .done rx' (x :: rest) ret)) := by
+    intro hlt hphy hne
+    subst hphy
+    obtain ⟨h1, h2, -, -, -, h6⟩ := check_poll_waits s apps now rx c' att te hon hst hl hlt hne.symm h
+    refine ⟨h1, h2, fun hn => ?_, h6⟩
+    rcases h6 with ⟨hs, -⟩ | ⟨hs, -⟩
+    · rw [hs, checkBA_last s now rx.length (by intro l' hl'; rw [hl] at hl'; cases hl'; exact hlt), if_pos hn]
+    · exact hs
+  refine ⟨ha, fun hne => ?_, fun hlt hphy hne => (hc hlt hphy hne).2⟩
+  by_cases hle : now ≤ te
+  · rw [ha hle]
+  · cases phy with
+    | true =>
+      cases htx : c'.tx with
+      | none => rfl
+      | some b => exact absurd (tx_needs_idle s apps now true rx c' h (by rw [htx]; simp)).1 (by simp)
+    | false => exact (hc (by omega) rfl hne).1
+
+/-- **Part 2, run form (`sender_never_interrupts`).**  Under the station invariant, for ANY sequence of
+polls `(time, receive buffer)` (PHY idle) that is `Dense` w.r.t. the slot time — every poll is not later
+than the stamp, or finds a new byte pending (stamp := poll time), or is not later than stamp + slot
+time — every poll returns regularly, transmits nothing and calls no application, as long as the station
+is in `CheckTokenPass att`; it leaves that state only by hearing a complete telegram.  `Dense` is a
+condition on the INPUTS only (poll times and buffer lengths, starting from `te` and the pending count);
+part 3 derives it from the arrival times of the successor's characters. -/
+theorem sender_never_interrupts (s : Station) (apps : Apps) (att : Attempt) (te : Int) (hinv : Inv s apps)
+    (hon : s.online = true) (hst : s.st = .checkTokenPass att) (hl : s.lastBusActivity = some te)
+    (polls : List (Int × Bytes)) (hd : Dense s.p.slotTime te s.pendingBytes polls) :
+    SupervisesQuietly att s apps polls :=
+  sender_run att s.p polls s apps te hinv hon hst hl rfl hd
+
+/-! Non-vacuity of part 2: station 5 supervising (stamp 0, `Tslot` = 400 µs); the successor's token
+trickles in: nothing at 100 µs, one byte at 300 µs, two at 650 µs (more than a slot time after the
+stamp 0, but a new byte is pending), still two at 900 µs (≤ 650 + 400). -/
+def pA : Params := { pEx with address := 5 }
+def sA : Station :=
+  { (Station.new pA) with online := true, st := .checkTokenPass .first, lastBusActivity := some 0 }
+
+theorem sA_inv : Inv sA [] := by
+  have h := inv_new pA [] (by decide) (by decide) (by intro s hs; cases hs)
+  exact ⟨h.addr, h.hsa, h.ring, fun ho => by simp [sA] at ho, h.gap, fun a ha => by simp [sA] at ha,
+    fun a ha => by simp [sA] at ha, h.app, fun a d ha => by simp [sA] at ha, h.scripts, by simp [sA]⟩
+
+example : SupervisesQuietly .first sA [] [(100, []), (300, [0xDC]), (650, [0xDC, 5]), (900, [0xDC, 5])] :=
+  sender_never_interrupts sA [] .first 0 sA_inv rfl rfl rfl _ (by
+    show Dense 400 0 0 _
+    simp [Dense])
+
+/-! ### Part 3 — arithmetic composition of the two sides
+
+Pure arithmetic about poll times and character arrival times; the station models enter only through
+the conclusions of parts 1 and 2.  Named bus hypotheses:
+* `tb` — the instant the last character of A's token telegram is on the bus; `tb ≤ te + E` where `te` is
+  A's stamp (its *predicted* end, `floor`) and `E` the rounding slack (`E = 1` µs on the bus of DESIGN 5.1,
+  where a character ends at `ceil`);
+* B's accepting poll `p1` is its first poll that sees the complete token: `tb ≤ p1 ≤ tb + P_B`;
+* `C` — the time after the start `q` of B's transmission at which its first character is in A's
+  receive buffer (`C = ceil(11 bit) ≤ bits 11 + 1`);
+* `Arrivals n arr vis` — characters of B's telegram become visible to A one by one at the times `arr k`,
+  consecutive ones at most a slot time apart. -/
+
+/-- **The margin condition**: rounding slack + two poll periods of the receiver + the synchronisation
+pause + one character time fit into the sender's slot time. -/
+def Margin (slot b33 E PB C : Nat) : Prop := E + 2 * PB + b33 + C ≤ slot
+
+/-- **`handover_first_char`** (arithmetic).  With B's first transmitting poll `q ∈ (p1 + 33 bit,
+p1 + 33 bit + P_B]` (part 1, timed form) and `Margin`: B starts later than 33 bit times after the real
+end `tb` of A's telegram, and B's first character is complete at `q + C ≤ te + Tslot` — before every
+poll of A that could find the slot time expired (`a > te + Tslot`). -/
+theorem handover_first_char (slot b33 E PB C : Nat) (te tb p1 q : Int) (hm : Margin slot b33 E PB C)
+    (hE : tb ≤ te + E) (hp1 : tb ≤ p1) (hp1' : p1 ≤ tb + PB) (hq : p1 + b33 < q) (hq' : q ≤ p1 + b33 + PB) :
+    tb + b33 < q ∧ q + C ≤ te + slot ∧ ∀ a : Int, te + slot < a → q + C < a := by
+  unfold Margin at hm
+  refine ⟨by omega, by omega, fun a ha => by omega⟩
+
+/-- The margin is also necessary for this argument: if it fails by one microsecond there are poll times
+satisfying all hypotheses with B's first character complete only AFTER `te + Tslot` (A polling in between
+retransmits). -/
+theorem margin_tight (slot b33 E PB C : Nat) (te : Int) (hPB : 0 < PB) (hm : ¬ Margin slot b33 E PB C) :
+    ∃ tb p1 q : Int, tb ≤ te + E ∧ tb ≤ p1 ∧ p1 ≤ tb + PB ∧ p1 + b33 < q ∧ q ≤ p1 + b33 + PB ∧
+      te + slot < q + C := by
+  unfold Margin at hm
+  exact ⟨te + E, te + E + PB, te + E + PB + b33 + PB, by omega, by omega, by omega, by omega, by omega, by omega⟩
+
+/-- **`margin_of_quarter_slot`**: for receiver poll periods `P_B ≤ Tslot/4` (DESIGN 5.2) the margin with
+`E = 1`, `C = bits 11 + 1` (bus of DESIGN 5.1: characters end at `ceil`) holds whenever
+`88·10⁶ + 4·rate ≤ slotBits·10⁶`, i.e. `slotBits ≥ 88 + 4·rate/10⁶` (92 bit up to 1 Mbit/s, 94 at
+1.5 Mbit/s, 136 at 12 Mbit/s; the standard slot times 100 … 1000 satisfy it).  The floors of
+`bits_to_time` are accounted for: `bits 33 + bits 11 ≤ floor(44·10⁶/rate)`, `2·floor(44·10⁶/rate) ≤
+floor(88·10⁶/rate)`, `floor((88·10⁶ + 4·rate)/rate) = floor(88·10⁶/rate) + 4`. -/
+theorem margin_of_quarter_slot (p : Params) (PB : Nat) (hr : 0 < p.rate) (hP : PB ≤ p.slotTime / 4)
+    (hs : 88 * 1000000 + 4 * p.rate ≤ p.slotBits * 1000000) :
+    Margin p.slotTime (p.bits 33) 1 PB (p.bits 11 + 1) := by
+  unfold Margin Params.slotTime Params.bits bitsToTime at *
+  have h1 : 33 * 1000000 / p.rate + 11 * 1000000 / p.rate ≤ 44 * 1000000 / p.rate := by
+    rw [Nat.le_div_iff_mul_le hr, Nat.add_mul]
+    have a := Nat.div_mul_le_self (33 * 1000000) p.rate
+    have b := Nat.div_mul_le_self (11 * 1000000) p.rate
+    omega
+  have h2 : 2 * (44 * 1000000 / p.rate) ≤ 88 * 1000000 / p.rate := by
+    rw [Nat.le_div_iff_mul_le hr]
+    have a := Nat.div_mul_le_self (44 * 1000000) p.rate
+    rw [Nat.mul_assoc]
+    omega
+  have h3 : 88 * 1000000 / p.rate + 4 ≤ p.slotBits * 1000000 / p.rate := by
+    have := Nat.div_le_div_right (c := p.rate) hs
+    rw [Nat.add_mul_div_right _ _ hr] at this
+    exact this
+  omega
+
+/-- The idealised variant without rounding slack (`E = 0`, `C = bits 11`): `slotBits ≥ 88` suffices. -/
+theorem margin_of_quarter_slot_ideal (p : Params) (PB : Nat) (hr : 0 < p.rate) (hP : PB ≤ p.slotTime / 4)
+    (hs : 88 ≤ p.slotBits) : Margin p.slotTime (p.bits 33) 0 PB (p.bits 11) := by
+  unfold Margin Params.slotTime Params.bits bitsToTime at *
+  have h1 : 33 * 1000000 / p.rate + 11 * 1000000 / p.rate ≤ 44 * 1000000 / p.rate := by
+    rw [Nat.le_div_iff_mul_le hr, Nat.add_mul]
+    have a := Nat.div_mul_le_self (33 * 1000000) p.rate
+    have b := Nat.div_mul_le_self (11 * 1000000) p.rate
+    omega
+  have h2 : 2 * (44 * 1000000 / p.rate) ≤ 88 * 1000000 / p.rate := by
+    rw [Nat.le_div_iff_mul_le hr]
+    have a := Nat.div_mul_le_self (44 * 1000000) p.rate
+    rw [Nat.mul_assoc]
+    omega
+  have h3 : 88 * 1000000 / p.rate ≤ p.slotBits * 1000000 / p.rate :=
+    Nat.div_le_div_right (Nat.mul_le_mul_right _ hs)
+  omega
+
+/-- **Part 3, `handover_no_collision`** (two stations, one hand-over).
+Station A supervises its pass (`CheckTokenPass att`, stamp `te`, nothing pending).  Station B is idle and
+its poll at `p1` is the first that sees A's complete token (`tb ≤ p1 ≤ tb + P_B`, `tb ≤ te + E` the real end
+of the token on the bus); afterwards B is polled at `tB 0, tB 1, …` with gaps `≤ P_B` on a silent bus.
+Under `Margin Tslot (33 bit) E P_B C`:
+1. B accepts at `p1`, transmits at none of its polls up to `p1 + 33 bit`, and transmits (application
+   telegram, GAP poll or token) at its first later poll `q = tB n`, where `tb + 33 bit < q` — B does not
+   start before the synchronisation pause after the REAL end of A's telegram — and `q + C ≤ te + Tslot`;
+2. whatever B's telegram (`nb > 0` characters), if its characters reach A according to an arrival model
+   with the first character complete by `q + C` and consecutive characters at most a slot time apart,
+   then for EVERY time-ordered sequence of polls of A that see the corresponding prefixes (only the last
+   may see the whole telegram): every poll returns regularly, A transmits nothing — it never retransmits
+   into B's transmission — until it has heard B's complete telegram. -/
+theorem handover_no_collision
+    (sA : Station) (appsA : Apps) (att : Attempt) (te : Int) (hinvA : Inv sA appsA) (honA : sA.online = true)
+    (hstA : sA.st = .checkTokenPass att) (hlA : sA.lastBusActivity = some te) (hpbA : sA.pendingBytes = 0)
+    (sB : Station) (appsB : Apps) (p1 : Int) (rx rx' : Bytes) (np : Option Nat) (coll : Nat)
+    (da sa : UInt8) (ret : Bool) (hinv : Inv sB appsB) (hon : sB.online = true) (hst : sB.st = .activeIdle none np coll)
+    (hlate : ∀ l, sB.lastBusActivity = some l → l < p1) (hto : 0 < sB.p.tokenLostTimeout)
+    (hfresh : sB.pendingBytes < rx.length ∨ ∃ l, sB.lastBusActivity = some l ∧ p1 < l + (sB.p.tokenLostTimeout : Nat))
+    (hrx : receiveAll rx = .done rx' [(.token da sa, true)] ret)
+    (hda : da.toNat = sB.p.address) (hsa : sa.toNat ≠ sB.p.address) (hsrc : sa.toNat = sB.ring.ps ∨ np = some sa.toNat)
+    (tB : Nat → Int) (PB : Nat) (h0 : tB 0 ≤ p1 + PB) (hgap : ∀ i, tB (i + 1) ≤ tB i + PB)
+    (hgo : ∃ k, p1 + (sB.p.bits 33 : Nat) < tB k)
+    (tb : Int) (E C : Nat) (hE : tb ≤ te + E) (hp1 : tb ≤ p1) (hp1' : p1 ≤ tb + PB)
+    (hm : Margin sA.p.slotTime (sB.p.bits 33) E PB C) :
+    ∃ c1 n, sB.poll appsB p1 false rx = .ok c1 ∧ c1.tx = none ∧
+      QuietThenTx sB.p.address c1.s c1.apps ((List.range n).map tB) (tB n) ∧
+      tb + (sB.p.bits 33 : Nat) < tB n ∧ tB n + C ≤ te + (sA.p.slotTime : Nat) ∧
+      ∀ (nb : Nat) (arr : Nat → Int) (vis : Int → Nat), 0 < nb → Arrivals nb arr vis → arr 0 ≤ tB n + C →
+        (∀ k, k + 1 < nb → arr (k + 1) ≤ arr k + (sA.p.slotTime : Nat)) →
+        ∀ polls : List (Int × Bytes), polls.Pairwise (fun x y => x.1 ≤ y.1) →
+          (∀ x ∈ polls, x.2.length = vis x.1) → (∀ x ∈ polls, ∀ y ∈ polls, x.1 < y.1 → vis x.1 < nb) →
+          SupervisesQuietly att sA appsA polls := by
+  obtain ⟨c1, h1, h2, -, -, -, h6, h7, -, h9, h10⟩ :=
+    token_accepted_idle sB appsB p1 rx rx' np coll da sa ret hon hst hlate hto hfresh hrx hda hsa hsrc
+  obtain ⟨c', hc', hinv', -⟩ := pollInner_good { s := sB, apps := appsB, rx := rx } p1 false hinv rfl
+  have : c' = c1 := by
+    have h1' : pollInner { s := sB, apps := appsB, rx := rx } p1 false = .ok c1 := h1
+    rw [hc'] at h1'; cases h1'; rfl
+  subst this
+  obtain ⟨n, hn1, hn2, hq⟩ := holder_starts_timed c'.s c'.apps p1 ⟨p1, none⟩ false hinv' h10 h6 h7 tB PB h0 hgap
+    (by rw [h9]; exact hgo)
+  rw [h9] at hn1 hn2 hq
+  obtain ⟨f1, f2, -⟩ := handover_first_char sA.p.slotTime (sB.p.bits 33) E PB C te tb p1 (tB n) hm hE hp1 hp1' hn1 hn2
+  refine ⟨c', n, h1, h2, hq, f1, f2, ?_⟩
+  intro nb arr vis hnb hA harr0 hgapc polls hpw hlen hinc
+  refine sender_never_interrupts sA appsA att te hinvA honA hstA hlA polls ?_
+  rw [hpbA]
+  exact dense_of_arrivals sA.p.slotTime nb arr vis hA hgapc polls te 0 hpw hlen hinc (fun _ _ _ => Nat.zero_le _)
+    (fun _ => by omega) (fun h0 => by omega)
+
+/-! Non-vacuity of part 3: A = station 5 (`sA`: stamp `te = 0`, `Tslot` = 400 µs), B = station 3 (`sB`) whose
+first poll seeing the token 5→3 is at 50 µs and which is then polled every 40 µs (`P_B` = 100 µs = `Tslot/4`);
+`tb = 1`, `E = 1`, `C = bits 11 + 1 = 23` µs; the margin is `margin_of_quarter_slot`. -/
+example : Margin pA.slotTime (pEx.bits 33) 1 100 (pEx.bits 11 + 1) :=
+  margin_of_quarter_slot pA 100 (by decide) (by decide) (by decide)
+
+example := handover_no_collision sA [] .first 0 sA_inv rfl rfl rfl rfl
+  sB [] 50 (sendToken 3 5) [] (some 5) 0 3 5 true sB_inv rfl rfl
+  (by intro l hl; cases hl; decide) (by decide) (.inl (by decide)) (receiveAll_token 3 5) rfl (by decide) (.inr rfl)
+  (fun i => 50 + 40 * ((i : Int) + 1)) 100 (by decide) (by intro i; omega) ⟨1, by decide⟩
+  1 1 (pEx.bits 11 + 1) (by decide) (by decide) (by decide)
+  (margin_of_quarter_slot pA 100 (by decide) (by decide) (by decide))
+
+/-- An arrival model: three characters visible from 1110, 1120, 1130 µs. -/
+example : Arrivals 3 (fun k => 1100 + 10 * ((k : Int) + 1))
+    (fun a => if a < 1110 then 0 else if a < 1120 then 1 else if a < 1130 then 2 else 3) :=
+  ⟨fun a k hk => by
+      have : k = 0 ∨ k = 1 ∨ k = 2 := by omega
+      rcases this with rfl | rfl | rfl <;> split <;> (try split) <;> (try split) <;> omega,
+   fun a => by split <;> (try split) <;> (try split) <;> omega⟩
+
+/-! ### Part 4 — request / reply (FDL status request answered from `ListenToken` / `ActiveIdle`) -/
+
+/-- **Part 4a, registering poll (`ActiveIdle`).**  An idle station without pending request, polled at `r1`
+(PHY idle, later than its stamp, token-lost time-out not run out) with a buffer that decodes to exactly
+one telegram, an FDL status request addressed to it: nothing is transmitted, no application is called,
+the request is registered (`statusReq = some SA`), stamp := `r1`, pending count 0. -/
+theorem request_registered_idle (s : Station) (apps : Apps) (r1 : Int) (rx rx' : Bytes) (np : Option Nat) (coll : Nat)
+    (h : Header) (pdu : Bytes) (fcb : FrameCountBit) (ret : Bool) (hon : s.online = true)
+    (hst : s.st = .activeIdle none np coll)
+    (hlate : ∀ l, s.lastBusActivity = some l → l < r1) (hto : 0 < s.p.tokenLostTimeout)
+    (hfresh : s.pendingBytes < rx.length ∨ ∃ l, s.lastBusActivity = some l ∧ r1 < l + (s.p.tokenLostTimeout : Nat))
+    (hrx : receiveAll rx = .done rx' [(.data h pdu, true)] ret)
+    (hfc : h.fc = .request fcb .fdlStatus) (hda : h.da.toNat = s.p.address) :
+    ∃ c1, s.poll apps r1 false rx = .ok c1 ∧ c1.tx = none ∧ c1.calls = [] ∧ c1.rx = [] ∧ c1.apps = apps ∧
+      Registered c1.s h.sa.toNat ∧ c1.s.st = .activeIdle (some h.sa.toNat) np coll ∧
+      c1.s.lastBusActivity = some r1 ∧ c1.s.p = s.p ∧ c1.s.online = true := by
+  have hrx' : rx' = [] := receiveAll_true_empty rx rx' _ ret hrx ⟨(.data h pdu, true), List.mem_singleton.mpr rfl, rfl⟩
+  subst hrx'
+  exact ⟨_, idle_poll_registers s apps r1 rx [] np coll h pdu fcb ret hon hst hlate hto hfresh hrx hfc hda,
+    rfl, rfl, rfl, rfl, .inr ⟨np, coll, rfl⟩, rfl, rfl, rfl, hon⟩
+
+/-- **Part 4a, registering poll (`ListenToken`)**: the same for a listening station (the request must come
+from another address). -/
+theorem request_registered_listen (s : Station) (apps : Apps) (r1 : Int) (rx rx' : Bytes) (coll : Nat)
+    (h : Header) (pdu : Bytes) (fcb : FrameCountBit) (ret : Bool) (hon : s.online = true)
+    (hst : s.st = .listenToken none coll)
+    (hlate : ∀ l, s.lastBusActivity = some l → l < r1) (hto : 0 < s.p.tokenLostTimeout)
+    (hfresh : s.pendingBytes < rx.length ∨ ∃ l, s.lastBusActivity = some l ∧ r1 < l + (s.p.tokenLostTimeout : Nat))
+    (hrx : receiveAll rx = .done rx' [(.data h pdu, true)] ret)
+    (hfc : h.fc = .request fcb .fdlStatus) (hda : h.da.toNat = s.p.address) (hsa : h.sa.toNat ≠ s.p.address) :
+    ∃ c1, s.poll apps r1 false rx = .ok c1 ∧ c1.tx = none ∧ c1.calls = [] ∧ c1.rx = [] ∧ c1.apps = apps ∧
+      Registered c1.s h.sa.toNat ∧ c1.s.st = .listenToken (some h.sa.toNat) coll ∧
+      c1.s.lastBusActivity = some r1 ∧ c1.s.p = s.p ∧ c1.s.online = true := by
+  have hrx' : rx' = [] := receiveAll_true_empty rx rx' _ ret hrx ⟨(.data h pdu, true), List.mem_singleton.mpr rfl, rfl⟩
+  subst hrx'
+  exact ⟨_, listen_poll_registers s apps r1 rx [] coll h pdu fcb ret hon hst hlate hto hfresh hrx hfc hda hsa,
+    rfl, rfl, rfl, rfl, .inl ⟨coll, rfl⟩, rfl, rfl, rfl, hon⟩
+
+/-- **Part 4, `reply_handshake_responder`.**  A station with a registered status request from `src`
+(`ListenToken (some src)` or `ActiveIdle (some src)`, `Registered`), stamp `r1` (the registering poll),
+under the invariant, on a silent bus, with the token-lost time-out longer than the synchronisation
+pause: ANY polls at times `≤ r1 + 33 bit` are complete no-ops (nothing transmitted, station unchanged),
+and the FIRST poll at a time `t > r1 + 33 bit` hands the FDL status reply addressed to `src` to the PHY,
+clears the request (`afterReply`: an idle station stays idle, a listener with a valid LAS joins as
+`ActiveIdle`) and stamps the predicted end — provided `t < r1 + Tto` (otherwise `handle_lost_token`
+comes first and the station claims the token instead, `C06.claim_progress`). -/
+theorem reply_handshake_responder (s : Station) (apps : Apps) (r1 : Int) (src : Nat) (hinv : Inv s apps)
+    (hon : s.online = true) (hreg : Registered s src) (hl : s.lastBusActivity = some r1)
+    (hto : s.p.bits 33 < s.p.tokenLostTimeout)
+    (early : List Int) (t : Int) (hearly : ∀ e ∈ early, e ≤ r1 + (s.p.bits 33 : Nat))
+    (ht : r1 + (s.p.bits 33 : Nat) < t) (hq : t < r1 + (s.p.tokenLostTimeout : Nat)) :
+    QuietThenReply s.p.address src s apps early t :=
+  responder_schedule s apps r1 t src hinv hon hreg hl hto ht hq early hearly
+
+/-- **Part 4, responder, timed form**: polled at `t 0, t 1, …` with `t 0 ≤ r1 + P`, gaps at most `P`,
+`33 bit + P < Tto`, the reply starts at a poll time in `(r1 + 33 bit, r1 + 33 bit + P]`. -/
+theorem responder_replies_timed (s : Station) (apps : Apps) (r1 : Int) (src : Nat) (hinv : Inv s apps)
+    (hon : s.online = true) (hreg : Registered s src) (hl : s.lastBusActivity = some r1)
+    (t : Nat → Int) (P : Nat) (hto : s.p.bits 33 + P < s.p.tokenLostTimeout)
+    (h0 : t 0 ≤ r1 + P) (hgap : ∀ i, t (i + 1) ≤ t i + P) (hgo : ∃ k, r1 + (s.p.bits 33 : Nat) < t k) :
+    ∃ n, r1 + (s.p.bits 33 : Nat) < t n ∧ t n ≤ r1 + (s.p.bits 33 : Nat) + P ∧
+      QuietThenReply s.p.address src s apps ((List.range n).map t) (t n) := by
+  obtain ⟨k, hk⟩ := hgo
+  obtain ⟨n, h1, h2, h3⟩ := first_exceed_timed t r1 (s.p.bits 33) P h0 hgap k hk
+  refine ⟨n, h1, h2, reply_handshake_responder s apps r1 src hinv hon hreg hl (by omega) _ _ ?_ h1 (by omega)⟩
+  intro e he
+  simp only [List.mem_map, List.mem_range] at he
+  obtain ⟨i, hi, rfl⟩ := he
+  exact h3 i hi
+
+/-- **Part 4, `reply_handshake_requester`.**  A station waiting for a reply — `AwaitStatusResponse`
+(GAP poll), `ClaimToken(ScanAwait)` (GAP poll while claiming) or `AwaitDataResponse` (application
+request), `Awaiting` — with stamp `te` (predicted end of its request, `tx_marks_busy`).  For ONE poll
+at any time, any PHY flag, any receive buffer, that returns regularly:
+(a) at `now ≤ te` the poll is a complete no-op;
+(b) at `now ≤ te + Tslot`, and (c) at ANY time if more bytes are in the receive buffer than accounted
+    for: nothing is transmitted — the station does not give up: no retry, no token pass, and (PHY idle,
+    `now > te`) no `timeout` is reported to the application (`NoTimeout`); while no complete telegram has
+    arrived the station is unchanged except for the registered activity (still waiting, stamp := `now`
+    if a byte is new). -/
+theorem reply_handshake_requester (s : Station) (apps : Apps) (now : Int) (phy : Bool) (rx : Bytes) (c' : Ctx)
+    (te : Int) (hon : s.online = true) (haw : Awaiting s) (hl : s.lastBusActivity = some te)
+    (h : s.poll apps now phy rx = .ok c') :
+    (now ≤ te → c' = { s := s, apps := apps, rx := rx }) ∧
+    ((now ≤ te + (s.p.slotTime : Nat) ∨ s.pendingBytes < rx.length) → c'.tx = none) ∧
+    (te < now → phy = false → (now ≤ te + (s.p.slotTime : Nat) ∨ s.pendingBytes < rx.length) →
+      NoTimeout [] c'.calls ∧
+      ∀ rx' ret, receiveTelegram rx = .done rx' [] ret →
+        c' = { s := checkBusActivity s now rx.length, apps := apps, rx := rx' }) := by
+  have ha : now ≤ te → c' = { s := s, apps := apps, rx := rx } := by
+    intro hle
+    rw [poll_ongoing s apps now phy rx hon haw.awake.1 haw.awake.2 te hl hle] at h
+    cases h; rfl
+  have hc : te < now → phy = false → (now ≤ te + (s.p.slotTime : Nat) ∨ s.pendingBytes < rx.length) →
+      c'.tx = none ∧ NoTimeout [] c'.calls ∧
+      ∀ rx' ret, receiveTelegram rx = .done rx' [] ret →
+        c' = { s := checkBusActivity s now rx.length, apps := apps, rx := rx' } := by
+    intro hlt hphy hne
+    subst hphy
+    exact requester_poll_waits s apps now rx c' te hon haw hl hlt hne.symm h
+  refine ⟨ha, fun hne => ?_, fun hlt hphy hne => (hc hlt hphy hne).2⟩
+  by_cases hle : now ≤ te
+  · rw [ha hle]
+  · cases phy with
+    | true =>
+      cases htx : c'.tx with
+      | none => rfl
+      | some b => exact absurd (tx_needs_idle s apps now true rx c' h (by rw [htx]; simp)).1 (by simp)
+    | false => exact (hc (by omega) rfl hne).1
+
+/-- **Part 4, requester, run form (`requester_never_gives_up`)**: under the invariant, for any `Dense`
+sequence of polls, every poll returns regularly, transmits nothing and reports no time-out, for as long
+as the polls find no complete telegram in the buffer (then the reply is handled, `C15.reply_delivery`,
+`C12`). -/
+theorem requester_never_gives_up (s : Station) (apps : Apps) (te : Int) (hinv : Inv s apps)
+    (hon : s.online = true) (haw : Awaiting s) (hl : s.lastBusActivity = some te)
+    (polls : List (Int × Bytes)) (hd : Dense s.p.slotTime te s.pendingBytes polls) :
+    AwaitsQuietly s apps polls :=
+  requester_run s.p polls s apps te hinv hon haw hl rfl hd
+
+/-- **Part 4, `reply_handshake`** (two stations, one request/reply).  Requester A waits (`Awaiting`, stamp
+`te`, nothing pending); responder R has registered A's request at its poll `r1`, the first that saw the
+complete request (`tb ≤ r1 ≤ tb + P_R`, `tb ≤ te + E` the real end of the request on the bus), and is then
+polled at `tR 0, tR 1, …` with gaps `≤ P_R` (`33 bit + P_R < Tto`) on a silent bus.  Under
+`Margin Tslot (33 bit) E P_R C`: R replies at its first poll `q = tR n` later than `r1 + 33 bit`, with
+`tb + 33 bit < q` (in particular later than the minimum station delay of 11 bit after the request) and
+`q + C ≤ te + Tslot`; and if the characters of the reply reach A according to an arrival model with the
+first character complete by `q + C` and consecutive ones at most a slot time apart, then for every
+time-ordered sequence of polls of A seeing the corresponding prefixes A never gives up: no retry, no
+token pass, no `timeout` callback, until the complete reply is in its buffer. -/
+theorem reply_handshake
+    (sA : Station) (appsA : Apps) (te : Int) (hinvA : Inv sA appsA) (honA : sA.online = true)
+    (hawA : Awaiting sA) (hlA : sA.lastBusActivity = some te) (hpbA : sA.pendingBytes = 0)
+    (sR : Station) (appsR : Apps) (r1 : Int) (src : Nat) (hinv : Inv sR appsR) (hon : sR.online = true)
+    (hreg : Registered sR src) (hl : sR.lastBusActivity = some r1)
+    (tR : Nat → Int) (PR : Nat) (hto : sR.p.bits 33 + PR < sR.p.tokenLostTimeout)
+    (h0 : tR 0 ≤ r1 + PR) (hgap : ∀ i, tR (i + 1) ≤ tR i + PR) (hgo : ∃ k, r1 + (sR.p.bits 33 : Nat) < tR k)
+    (tb : Int) (E C : Nat) (hE : tb ≤ te + E) (hr1 : tb ≤ r1) (hr1' : r1 ≤ tb + PR)
+    (hm : Margin sA.p.slotTime (sR.p.bits 33) E PR C) :
+    ∃ n, QuietThenReply sR.p.address src sR appsR ((List.range n).map tR) (tR n) ∧
+      tb + (sR.p.bits 33 : Nat) < tR n ∧ tR n + C ≤ te + (sA.p.slotTime : Nat) ∧
+      ∀ (nb : Nat) (arr : Nat → Int) (vis : Int → Nat), 0 < nb → Arrivals nb arr vis → arr 0 ≤ tR n + C →
+        (∀ k, k + 1 < nb → arr (k + 1) ≤ arr k + (sA.p.slotTime : Nat)) →
+        ∀ polls : List (Int × Bytes), polls.Pairwise (fun x y => x.1 ≤ y.1) →
+          (∀ x ∈ polls, x.2.length = vis x.1) → (∀ x ∈ polls, ∀ y ∈ polls, x.1 < y.1 → vis x.1 < nb) →
+          AwaitsQuietly sA appsA polls := by
+  obtain ⟨n, hn1, hn2, hq⟩ := responder_replies_timed sR appsR r1 src hinv hon hreg hl tR PR hto h0 hgap hgo
+  obtain ⟨f1, f2, -⟩ := handover_first_char sA.p.slotTime (sR.p.bits 33) E PR C te tb r1 (tR n) hm hE hr1 hr1' hn1 hn2
+  refine ⟨n, hq, f1, f2, ?_⟩
+  intro nb arr vis hnb hA harr0 hgapc polls hpw hlen hinc
+  refine requester_never_gives_up sA appsA te hinvA honA hawA hlA polls ?_
+  rw [hpbA]
+  exact dense_of_arrivals sA.p.slotTime nb arr vis hA hgapc polls te 0 hpw hlen hinc (fun _ _ _ => Nat.zero_le _)
+    (fun _ => by omega) (fun h0 => by omega)
+
+/-! Non-vacuity of part 4.  Responder: station 3, idle (`sB` without pending stranger), receives at 1000 µs
+the status request 5→3 (`10 03 05 49 51 16`), registers it, and replies at its first poll later than 1066 µs.
+Requester: station 5 in `AwaitStatusResponse 3` (stamp 0, `Tslot` = 400 µs) while the reply trickles in. -/
+def sR0 : Station :=
+  { (Station.new pEx) with online := true, st := .activeIdle none none 0, lastBusActivity := some 0 }
+
+theorem sR0_inv : Inv sR0 [] := by
+  have h := inv_new pEx [] (by decide) (by decide) (by intro s hs; cases hs)
+  exact ⟨h.addr, h.hsa, h.ring, fun ho => by simp [sR0] at ho, h.gap, fun a ha => by simp [sR0] at ha,
+    fun a ha => by simp [sR0] at ha, h.app, fun a d ha => by simp [sR0] at ha, h.scripts, by simp [sR0]⟩
+
+example : ∃ c1, sR0.poll [] 1000 false [0x10, 3, 5, 0x49, 0x51, 0x16] = .ok c1 ∧ c1.tx = none ∧ c1.calls = [] ∧
+    c1.rx = [] ∧ c1.apps = [] ∧ Registered c1.s 5 ∧ c1.s.st = .activeIdle (some 5) none 0 ∧
+    c1.s.lastBusActivity = some 1000 ∧ c1.s.p = pEx ∧ c1.s.online = true :=
+  request_registered_idle sR0 [] 1000 [0x10, 3, 5, 0x49, 0x51, 0x16] [] none 0 (fdlStatusRequestHeader 3 5) []
+    .inactive true rfl rfl (by intro l hl; cases hl; decide) (by decide) (.inl (by decide)) (by decide) rfl rfl
+
+def sR : Station :=
+  { (Station.new pEx) with online := true, st := .activeIdle (some 5) none 0, lastBusActivity := some 1000 }
+
+theorem sR_inv : Inv sR [] := by
+  have h := inv_new pEx [] (by decide) (by decide) (by intro s hs; cases hs)
+  exact ⟨h.addr, h.hsa, h.ring, fun ho => by simp [sR] at ho, h.gap, fun a ha => by simp [sR] at ha,
+    fun a ha => by simp [sR] at ha, h.app, fun a d ha => by simp [sR] at ha, h.scripts, by simp [sR]⟩
+
+example : QuietThenReply 3 5 sR [] [1010, 1066] 1100 :=
+  reply_handshake_responder sR [] 1000 5 sR_inv rfl (.inr ⟨none, 0, rfl⟩) rfl (by decide) [1010, 1066] 1100
+    (by intro e he; simp at he; rcases he with rfl | rfl <;> decide) (by decide) (by decide)
+
+def sQ : Station :=
+  { (Station.new pA) with online := true, st := .awaitStatus 3, gap := .doPoll 3, lastBusActivity := some 0 }
+
+theorem sQ_inv : Inv sQ [] := by
+  have h := inv_new pA [] (by decide) (by decide) (by intro s hs; cases hs)
+  exact ⟨h.addr, h.hsa, h.ring, fun ho => by simp [sQ] at ho,
+    fun cur hc => by simp [sQ] at hc; subst hc; decide,
+    fun a ha => by simp [sQ] at ha; subst ha; exact ⟨rfl, by decide⟩,
+    fun a ha => by simp [sQ] at ha, h.app, fun a d ha => by simp [sQ] at ha, h.scripts, by simp [sQ]⟩
+
+example : AwaitsQuietly sQ [] [(100, []), (300, [0x10]), (650, [0x10, 5]), (900, [0x10, 5])] :=
+  requester_never_gives_up sQ [] 0 sQ_inv rfl (.inl ⟨3, rfl⟩) rfl _ (by
+    show Dense 400 0 0 _
+    simp [Dense])
 
 end PV.C01
